@@ -50,5 +50,11 @@ pub assume_specification [i128::is_negative] (x: i128) -> (r: bool) ensures r ==
 pub assume_specification [i64::abs] (x: i64) -> (r: i64)
     requires x != i64::MIN,
     ensures r == (if x < 0 { -x } else { x as int });
+pub assume_specification [i64::saturating_abs] (x: i64) -> (r: i64)
+    ensures r == (if x == i64::MIN { i64::MAX as int } else if x < 0 { -(x as int) } else { x as int });
+pub assume_specification [i64::wrapping_abs] (x: i64) -> (r: i64)
+    ensures r == (if x == i64::MIN { i64::MIN as int } else if x < 0 { -(x as int) } else { x as int });
+pub assume_specification [i64::checked_abs] (x: i64) -> (r: Option<i64>)
+    ensures r == (if x == i64::MIN { None::<i64> } else if x < 0 { Some((-(x as int)) as i64) } else { Some(x) });
 pub assume_specification [i64::unsigned_abs] (x: i64) -> (r: u64)
     ensures r as int == (if x < 0 { -(x as int) } else { x as int });
